@@ -217,7 +217,8 @@ fn lexi_x_to_9(x: &str, incl: bool) -> Result<String> {
             Ok(mk_or(parts))
         }
     } else if x.is_empty() {
-        Ok("[0-9]*[1-9]".to_string())
+        // strictly greater: some non-zero digit, then anything (trailing zeros included)
+        Ok("[0-9]*[1-9][0-9]*".to_string())
     } else {
         let x0 = x
             .chars()
@@ -243,7 +244,8 @@ fn lexi_x_to_9(x: &str, incl: bool) -> Result<String> {
 fn lexi_0_to_x(x: &str, incl: bool) -> Result<String> {
     if x.is_empty() {
         if incl {
-            Ok("".to_string())
+            // equal to the bound: only zeros may follow
+            Ok("0*".to_string())
         } else {
             Err(anyhow!("Inclusive flag must be true for an empty string"))
         }
@@ -265,13 +267,17 @@ fn lexi_0_to_x(x: &str, incl: bool) -> Result<String> {
             return Ok(format!("[0-{}][0-9]*", x0 - 1));
         }
 
-        let mut parts = vec![format!(
-            "{}{}",
-            x.chars()
-                .next()
-                .ok_or_else(|| anyhow!("String x is unexpectedly empty"))?,
-            lexi_0_to_x(x_rest, incl)?
-        )];
+        let first = x
+            .chars()
+            .next()
+            .ok_or_else(|| anyhow!("String x is unexpectedly empty"))?;
+        let rest_rx = lexi_0_to_x(x_rest, incl)?;
+        let mut parts = vec![if x_rest.is_empty() {
+            format!("{first}{rest_rx}")
+        } else {
+            // the digit on its own is a shorter, hence smaller, fraction (x has no trailing zeros)
+            format!("{first}({rest_rx})?")
+        }];
         if x0 > 0 {
             parts.push(format!("[0-{}][0-9]*", x0 - 1));
         }
@@ -307,13 +313,17 @@ fn lexi_range(ld: &str, rd: &str, ld_incl: bool, rd_incl: bool) -> Result<String
         if l0 == r0 {
             let ld_rest = &ld[1..];
             let rd_rest = &rd[1..];
-            Ok(format!(
-                "{}{}",
-                ld.chars()
-                    .next()
-                    .ok_or_else(|| anyhow!("ld is unexpectedly empty"))?,
-                lexi_range(ld_rest, rd_rest, ld_incl, rd_incl)?
-            ))
+            let first = ld
+                .chars()
+                .next()
+                .ok_or_else(|| anyhow!("ld is unexpectedly empty"))?;
+            let rest_rx = lexi_range(ld_rest, rd_rest, ld_incl, rd_incl)?;
+            if ld_incl && ld_rest.trim_end_matches('0').is_empty() {
+                // the lower bound itself, written without its trailing zeros
+                Ok(format!("{first}({rest_rx})?"))
+            } else {
+                Ok(format!("{first}{rest_rx}"))
+            }
         } else {
             if l0 >= r0 {
                 return Err(anyhow!("l0 must be less than r0"));
@@ -331,13 +341,17 @@ fn lexi_range(ld: &str, rd: &str, ld_incl: bool, rd_incl: bool) -> Result<String
             }
             let rd_rest = rd[1..].trim_end_matches('0');
             if !rd_rest.is_empty() || rd_incl {
-                parts.push(format!(
-                    "{}{}",
-                    rd.chars()
-                        .next()
-                        .ok_or_else(|| anyhow!("rd is unexpectedly empty"))?,
-                    lexi_0_to_x(rd_rest, rd_incl)?
-                ));
+                let first = rd
+                    .chars()
+                    .next()
+                    .ok_or_else(|| anyhow!("rd is unexpectedly empty"))?;
+                let rest_rx = lexi_0_to_x(rd_rest, rd_incl)?;
+                if rd_rest.is_empty() {
+                    parts.push(format!("{first}{rest_rx}"));
+                } else {
+                    // the first digit alone is below the upper bound and above the lower one
+                    parts.push(format!("{first}({rest_rx})?"));
+                }
             }
             Ok(mk_or(parts))
         }
